@@ -6,8 +6,17 @@ alternative cancels the `*` (the tool drops them): must/may alternative sets, an
 from . import mref, mgen
 
 
+NEVER = {'conn': None, 'obj': None, 'name': None, 'args': None, 'never': True}
+"""a specific alternative that no message can match (`x(!)`, `[!].y`, ...): it counts as an alternative - a pending `*` stops
+applying when it arrives - and selects nothing"""
+
+
+def is_never(p):
+    return bool(p.get('never'))
+
+
 def is_any(p):
-    return p['conn'] is None and p['obj'] is None and p['name'] is None and p['args'] is None
+    return not p.get('never') and p['conn'] is None and p['obj'] is None and p['name'] is None and p['args'] is None
 
 
 def from_matcher(mt):
@@ -54,6 +63,8 @@ def selected(state, m):
 
 
 def sel_pattern(p, m):
+    if is_never(p):
+        return False
     return mref.pattern_match(p, m)
 
 
@@ -62,5 +73,6 @@ def describe(state):
     if state[0] == 'const':
         return '*' if state[1] else '!'
     _, must, may, star, excl = state
-    return 'must[%s] may[%s]%s ! [%s]' % (', '.join(r.pattern(p) for p in must), ', '.join(r.pattern(p) for p in may),
-                                         ' star' if star else '', ', '.join(r.pattern(p) for p in excl))
+    pat = lambda p: '<unsatisfiable>' if is_never(p) else r.pattern(p)
+    return 'must[%s] may[%s]%s ! [%s]' % (', '.join(pat(p) for p in must), ', '.join(pat(p) for p in may),
+                                         ' star' if star else '', ', '.join(pat(p) for p in excl))
